@@ -81,6 +81,12 @@ Definition bin_step (operand : list token -> res) (left : gexpr) (ts : list toke
   do (r, ts') <- operand (advance ts);
   Val (GBinary left op (Some r) false, ts').
 
+(* the AND / OR loops store the canonical (upper-case) spelling of the keyword (parser.keywordSpelling, repo a8df5c2) *)
+Definition kw_step (operand : list token -> res) (left : gexpr) (ts : list token) : res :=
+  let op := upper (lit (cur ts)) in
+  do (r, ts') <- operand (advance ts);
+  Val (GBinary left op (Some r) false, ts').
+
 (* type parameter lists: `for !isType(RParen) { [comma] param }`; returns the text built so far *)
 Section TypeParams.
   Variable param_ok : token -> bool.
@@ -376,7 +382,7 @@ Section Ladder.
         do (hi, ts) <- rewrap EInvalid (concat_level d (advance ts));
         Val (GBetween lhs lo hi not_prefix, ts)
     else if isT (cur ts) TyLike || litfold (cur ts) "ILIKE" then
-      let op := lit (cur ts) in
+      let op := upper (lit (cur ts)) in
       do (p, ts) <- rewrap EInvalid ((if d_like_primary df then primary d else concat_level d) (advance ts));
       Val (GBinary lhs op (Some p) not_prefix, ts)
     else if litfold (cur ts) "REGEXP" || litfold (cur ts) "RLIKE" then
@@ -417,12 +423,12 @@ Section Ladder.
   (* parseAndExpression *)
   Definition and_level (d : nat) (ts : list token) : res :=
     do (l, ts) <- cmp_level d ts;
-    chain cont1 (bin_step (cmp_level d)) (S (length ts)) l ts.
+    chain cont1 (kw_step (cmp_level d)) (S (length ts)) l ts.
 
   (* parseExpression without the depth check *)
   Definition or_level (d : nat) (ts : list token) : res :=
     do (l, ts) <- and_level d ts;
-    chain cont0 (bin_step (and_level d)) (S (length ts)) l ts.
+    chain cont0 (kw_step (and_level d)) (S (length ts)) l ts.
 
   (* parseExpression: depth++ ; check ; body (depth is restored on return) *)
   Definition expr_body (d : nat) (ts : list token) : res :=
